@@ -52,4 +52,8 @@ CLAIMED = {
    text="Generated projects with scenario trees (1-4 scenarios, depth <= 3) and scenario-specific effort/start/end overrides; every scenario of the multi-scenario run is compared, dates and per-scenario ledger, with a single-scenario run of the text in which that scenario's effective values are written as plain attributes (differential / metamorphic relation). Covers 'adding scenarios changes nothing', 'no overrides = parent' and 'nothing carries over'.",
    note="The effective-value rule (own, else nearest ancestor scenario, else plain) is the checker's reading of the statement; later scenarios whose overrides need a different horizon than the first are a recorded finding (F03).",
    technique="differential / metamorphic property-based testing (Hypothesis): multi-scenario run vs single-scenario runs"),
+ "C17": dict(
+   text="Complete enumeration of the stated grid: every index of [-3, size+3] and boundary/mid-slot instants of 200+ windows x 10 resolutions (incl. resolutions that do not divide a day) for the Scoreboard and Project conversion pairs against the algebraic laws, and every predicate pattern up to length 8 (quick) / 12 (thorough) x every query window x five minimum durations for collectIntervals against a reference run-length scan.",
+   note="Runs in the configuration rebuilt from the current sources; windows longer than 3000 slots are sampled evenly plus both ends (stated in the rule); C13 carries the verdict to the pure fallbacks.",
+   technique="exhaustive bounded enumeration against algebraic laws and a reference implementation"),
 }
